@@ -1,7 +1,9 @@
 (* C20 - array geometry helpers share one centre convention (index floor(n/2) = [ctr n]).
    Only statements: every proof is [exact] of a lemma of Proofs/.  [S] ranges over every scalar
    structure (a commutative ring where sums are involved); shapes and indices over all of Z. *)
-From LV Require Import Model.Field Model.Geometry Proofs.GeometryP Lib.Instances.
+From Coq Require Import Reals.
+From LV Require Import Lib.Cis Model.Field Model.Geometry Model.Shapes Proofs.GeometryP Proofs.ShapesP Proofs.ShapesR Proofs.HexLatticeP Proofs.HexSegR Lib.Instances.
+#[local] Open Scope Z_scope.
 
 (* ---------------------------------------------------------------- (a) pad *)
 (* pad_centre: sample i of the result is sample i - floor(N/2) + floor(n/2) of the source when that
@@ -136,6 +138,194 @@ Theorem C20_rebin_accepts_exactly_divisible_shapes :
 Proof. exact rebin2_accepts. Qed.
 Print Assumptions C20_rebin_accepts_exactly_divisible_shapes.
 
+(* ---------------------------------------------------------------- (d) drawn shapes *)
+(* [S] is any commutative ring with a total order compatible with + ([ord_laws]) into which the
+   integers inject additively ([zinj_laws]); [sq] is ANY function standing for the square root; the
+   rotation cosine/sine, sqrt 3 and the hexagon normals are arbitrary scalars.  The reals (with the
+   real sqrt/sin/cos) and the rationals (the executed instance) are such structures. *)
+Theorem C20_reals_and_rationals_are_ordered_scalars :
+  ord_laws RS Rleb /\ zinj_laws RS /\ ord_laws QS qle /\ zinj_laws QS.
+Proof. exact (conj RS_ord (conj RS_zinj (conj QS_ord QS_zinj))). Qed.
+Print Assumptions C20_reals_and_rationals_are_ordered_scalars.
+
+(* values in [0,1]; exactly 0 or 1 without antialiasing *)
+Theorem C20_shapes_in_unit_interval_and_binary :
+  forall (S : Scalar) (leb : S -> S -> bool) (sq : S -> S), is_ring S -> ord_laws S leb -> zinj_laws S ->
+  forall (n m : Z) (radius w h s3 sh0 sh1 co si : S) (ns : list (S * S)) (aa : bool) (i j : Z),
+  let unit v := leb k0 v = true /\ leb v k1 = true in
+  let binary v := v = k0 \/ v = k1 in
+  (unit (circle_val leb sq n m radius sh0 sh1 aa i j) /\
+   (aa = false -> binary (circle_val leb sq n m radius sh0 sh1 aa i j))) /\
+  (unit (rect_val leb n m w h sh0 sh1 co si aa i j) /\
+   (aa = false -> binary (rect_val leb n m w h sh0 sh1 co si aa i j))) /\
+  (unit (hex_val leb n m radius s3 sh0 sh1 ns aa i j) /\
+   (aa = false -> binary (hex_val leb n m radius s3 sh0 sh1 ns aa i j))).
+Proof.
+  exact (fun S leb sq R O Zi n m radius w h s3 sh0 sh1 co si ns aa i j =>
+    conj (circle_range S leb sq R O Zi n m radius sh0 sh1 aa i j)
+   (conj (rect_range S leb sq R O Zi n m w h sh0 sh1 co si aa i j)
+         (hex_range S leb sq R O Zi n m radius s3 sh0 sh1 ns aa i j))).
+Qed.
+Print Assumptions C20_shapes_in_unit_interval_and_binary.
+
+(* exact translation: the value depends only on (index - floor(n/2) - shift); in particular an
+   integer change (d0, d1) of the shift moves the drawing by exactly (d0, d1) samples, in any array *)
+Theorem C20_shapes_translate_exactly :
+  forall (S : Scalar) (leb : S -> S -> bool) (sq : S -> S), is_ring S -> ord_laws S leb -> zinj_laws S ->
+  forall (n m n' m' : Z) (radius w h s3 sh0 sh1 co si : S) (ns : list (S * S)) (aa : bool) (i j i' j' d0 d1 : Z),
+  i' - n' / 2 = i - n / 2 + d0 -> j' - m' / 2 = j - m / 2 + d1 ->
+  circle_val leb sq n' m' radius (sh0 + kofz d0)%K (sh1 + kofz d1)%K aa i' j' = circle_val leb sq n m radius sh0 sh1 aa i j /\
+  rect_val leb n' m' w h (sh0 + kofz d0)%K (sh1 + kofz d1)%K co si aa i' j' = rect_val leb n m w h sh0 sh1 co si aa i j /\
+  hex_val leb n' m' radius s3 (sh0 + kofz d0)%K (sh1 + kofz d1)%K ns aa i' j' = hex_val leb n m radius s3 sh0 sh1 ns aa i j.
+Proof.
+  exact (fun S leb sq R O Zi n m n' m' radius w h s3 sh0 sh1 co si ns aa i j i' j' d0 d1 H0 H1 =>
+    conj (circle_translate S leb sq R O Zi n m n' m' radius sh0 sh1 aa i j i' j' d0 d1 H0 H1)
+   (conj (rect_translate S leb sq R O Zi n m n' m' w h sh0 sh1 co si aa i j i' j' d0 d1 H0 H1)
+         (hex_translate S leb sq R O Zi n m n' m' radius s3 sh0 sh1 ns aa i j i' j' d0 d1 H0 H1))).
+Qed.
+Print Assumptions C20_shapes_translate_exactly.
+
+(* circle: half-turn i |-> 2*floor(n/2) - i about the origin sample, and both mirrors *)
+Theorem C20_circle_half_turn_and_mirrors :
+  forall (S : Scalar) (leb : S -> S -> bool) (sq : S -> S), is_ring S -> ord_laws S leb -> zinj_laws S ->
+  forall (n m : Z) (radius : S) (aa : bool) (i j : Z),
+  circle_val leb sq n m radius k0 k0 aa (2 * (n / 2) - i) (2 * (m / 2) - j) = circle_val leb sq n m radius k0 k0 aa i j /\
+  circle_val leb sq n m radius k0 k0 aa (2 * (n / 2) - i) j = circle_val leb sq n m radius k0 k0 aa i j /\
+  circle_val leb sq n m radius k0 k0 aa i (2 * (m / 2) - j) = circle_val leb sq n m radius k0 k0 aa i j.
+Proof.
+  exact (fun S leb sq R O Zi n m radius aa i j =>
+    conj (circle_half_turn S leb sq R O Zi n m radius aa i j) (circle_mirror S leb sq R O Zi n m radius aa i j)).
+Qed.
+Print Assumptions C20_circle_half_turn_and_mirrors.
+
+(* rectangle: half-turn for every rotation (co, si arbitrary); mirrors when not rotated (co = 1, si = 0) *)
+Theorem C20_rectangle_half_turn_and_mirrors :
+  forall (S : Scalar) (leb : S -> S -> bool) (sq : S -> S), is_ring S -> ord_laws S leb -> zinj_laws S ->
+  forall (n m : Z) (w h co si : S) (aa : bool) (i j : Z),
+  rect_val leb n m w h k0 k0 co si aa (2 * (n / 2) - i) (2 * (m / 2) - j) = rect_val leb n m w h k0 k0 co si aa i j /\
+  rect_val leb n m w h k0 k0 k1 k0 aa (2 * (n / 2) - i) j = rect_val leb n m w h k0 k0 k1 k0 aa i j /\
+  rect_val leb n m w h k0 k0 k1 k0 aa i (2 * (m / 2) - j) = rect_val leb n m w h k0 k0 k1 k0 aa i j.
+Proof.
+  exact (fun S leb sq R O Zi n m w h co si aa i j =>
+    conj (rect_half_turn S leb sq R O Zi n m w h co si aa i j) (rect_mirror S leb sq R O Zi n m w h aa i j)).
+Qed.
+Print Assumptions C20_rectangle_half_turn_and_mirrors.
+
+(* hexagon: invariant under a symmetry as soon as the list of normals is closed under its dual *)
+Theorem C20_hexagon_symmetric_when_normals_closed :
+  forall (S : Scalar) (leb : S -> S -> bool) (sq : S -> S), is_ring S -> ord_laws S leb -> zinj_laws S ->
+  forall (n m : Z) (radius s3 : S) (ns : list (S * S)) (aa : bool) (i j : Z),
+  ((forall p, In p ns -> In ((- fst p)%K, (- snd p)%K) ns) ->
+   hex_val leb n m radius s3 k0 k0 ns aa (2 * (n / 2) - i) (2 * (m / 2) - j) = hex_val leb n m radius s3 k0 k0 ns aa i j) /\
+  ((forall p, In p ns -> In ((- fst p)%K, snd p) ns) ->
+   hex_val leb n m radius s3 k0 k0 ns aa (2 * (n / 2) - i) j = hex_val leb n m radius s3 k0 k0 ns aa i j) /\
+  ((forall p, In p ns -> In (fst p, (- snd p)%K) ns) ->
+   hex_val leb n m radius s3 k0 k0 ns aa i (2 * (m / 2) - j) = hex_val leb n m radius s3 k0 k0 ns aa i j).
+Proof.
+  exact (fun S leb sq R O Zi n m radius s3 ns aa i j =>
+    conj (hex_half_turn S leb sq R O Zi n m radius s3 ns aa i j) (hex_mirror S leb sq R O Zi n m radius s3 ns aa i j)).
+Qed.
+Print Assumptions C20_hexagon_symmetric_when_normals_closed.
+
+(* over the reals the six normals (sin theta_k, cos theta_k), theta_k = k pi/3 (+ pi/6), come in
+   opposite pairs, so the real hexagon is invariant under the half-turn (both orientations) *)
+Theorem C20_hexagon_normals_opposite_pairs :
+  forall (rotate : bool) (p : R * R), In p (hex_normals_R rotate) -> In ((- fst p)%R, (- snd p)%R) (hex_normals_R rotate).
+Proof. exact hex_normals_opposite. Qed.
+Print Assumptions C20_hexagon_normals_opposite_pairs.
+
+Theorem C20_hexagon_half_turn_real :
+  forall (n m : Z) (radius : R) (rotate aa : bool) (i j : Z),
+  @hex_val RS Rleb n m radius (sqrt 3) 0%R 0%R (hex_normals_R rotate) aa (2 * (n / 2) - i) (2 * (m / 2) - j) =
+  @hex_val RS Rleb n m radius (sqrt 3) 0%R 0%R (hex_normals_R rotate) aa i j.
+Proof. exact hexagon_half_turn_R. Qed.
+Print Assumptions C20_hexagon_half_turn_real.
+
+(* ... and under both mirrors (theta |-> pi - theta and theta |-> -theta permute the six normals) *)
+Theorem C20_hexagon_mirrors_real :
+  forall (n m : Z) (radius : R) (rotate aa : bool) (i j : Z),
+  @hex_val RS Rleb n m radius (sqrt 3) 0%R 0%R (hex_normals_R rotate) aa (2 * (n / 2) - i) j =
+  @hex_val RS Rleb n m radius (sqrt 3) 0%R 0%R (hex_normals_R rotate) aa i j /\
+  @hex_val RS Rleb n m radius (sqrt 3) 0%R 0%R (hex_normals_R rotate) aa i (2 * (m / 2) - j) =
+  @hex_val RS Rleb n m radius (sqrt 3) 0%R 0%R (hex_normals_R rotate) aa i j.
+Proof. exact hexagon_mirror_R. Qed.
+Print Assumptions C20_hexagon_mirrors_real.
+
+(* ---------------------------------------------------------------- (e) hexagonal segments *)
+Theorem C20_hex_ring_has_6r_segments :
+  forall r : Z, Z.of_nat (length (hex_ring r)) = 6 * Z.max r 0.
+Proof. exact hex_ring_length. Qed.
+Print Assumptions C20_hex_ring_has_6r_segments.
+
+(* k rings hold 1 + 3k(k+1) segments minus the segment numbers of the aperture found in the drop list *)
+Theorem C20_hex_segment_count :
+  forall (rings : Z) (drop : list Z), 0 <= rings ->
+  Z.of_nat (length (hex_kept rings drop)) =
+  1 + 3 * rings * (rings + 1) - Z.of_nat (length (filter (fun p => in_drop drop (fst p)) (hex_numbered rings))).
+Proof. exact hex_count. Qed.
+Print Assumptions C20_hex_segment_count.
+
+(* separating axis on the lattice: two distinct lattice points differ by at least 2 half-steps along
+   one of the three hexagon axes *)
+Theorem C20_hex_lattice_separation :
+  forall dq dr : Z, (dq, dr) <> (0, 0) ->
+  2 <= Z.abs (2 * dq + dr) \/ 2 <= Z.abs (dq + 2 * dr) \/ 2 <= Z.abs (dr - dq).
+Proof. exact hex_lattice_separation. Qed.
+Print Assumptions C20_hex_lattice_separation.
+
+(* non-overlap (non-antialiased masks): two hexagons whose centres (a0,a1), (b0,b1) are further apart
+   along a normal p (with -p also a normal) than twice the inner radius share no sample *)
+Theorem C20_hex_masks_disjoint_when_separated :
+  forall (S : Scalar) (leb : S -> S -> bool) (sq : S -> S), is_ring S -> ord_laws S leb -> zinj_laws S ->
+  forall (n m : Z) (radius s3 : S) (ns : list (S * S)) (a0 a1 b0 b1 : S) (p : S * S) (i j : Z),
+  k1 <> @k0 S -> In p ns -> In ((- fst p)%K, (- snd p)%K) ns ->
+  gtb leb ((b0 - a0) * fst p + (b1 - a1) * snd p)%K (radius * s3 * khalf + radius * s3 * khalf)%K = true ->
+  ~ (hex_val leb n m radius s3 a0 a1 ns false i j = k1 /\ hex_val leb n m radius s3 b0 b1 ns false i j = k1).
+Proof. exact hex_masks_disjoint. Qed.
+Print Assumptions C20_hex_masks_disjoint_when_separated.
+
+(* the ring as the code builds it: no repetitions, every member on the plane q + r + s = 0 at hex distance r *)
+Theorem C20_hex_ring_members_distinct_at_distance_r :
+  forall r : Z, NoDup (hex_ring r) /\
+  forall x, 0 <= r -> In x (hex_ring r) -> hq x + hr x + hs x = 0 /\ hnorm x = r.
+Proof. exact (fun r => conj (hex_ring_nodup r) (fun x => hex_ring_plane_norm r x)). Qed.
+Print Assumptions C20_hex_ring_members_distinct_at_distance_r.
+
+(* the segments (centre + all rings) sit on pairwise distinct lattice points, and two different kept
+   segments are separated by >= 2 half-steps along one of the three hexagon axes *)
+Theorem C20_hex_segments_pairwise_separated :
+  forall (rings : Z) (drop : list Z),
+  NoDup (map snd (hex_numbered rings)) /\
+  forall a b, In a (hex_kept rings drop) -> In b (hex_kept rings drop) -> a <> b ->
+  let dq := hq (snd b) - hq (snd a) in let dr := hr (snd b) - hr (snd a) in
+  hs (snd b) - hs (snd a) = - dq - dr /\
+  (2 <= Z.abs (2 * dq + dr) \/ 2 <= Z.abs (dq + 2 * dr) \/ 2 <= Z.abs (dr - dq)).
+Proof. exact (fun rings drop => conj (hex_numbered_nodup rings) (hex_kept_pairwise_separated rings drop)). Qed.
+Print Assumptions C20_hex_segments_pairwise_separated.
+
+(* non-overlap, judged on non-antialiased masks, for seg_gap > 0: over the reals (real sqrt 3, real
+   normals, the shifts hex_segments computes) no sample belongs to two different segments *)
+Theorem C20_hex_segments_do_not_overlap_for_positive_gap :
+  forall (rings : Z) (radius gap : R) (rotate : bool) (drop : list Z) (n m : Z) (a b : Z * (R * R)) (i j : Z),
+  (0 <= radius)%R -> (0 < gap)%R ->
+  In a (@hex_shifts RS rings radius gap (sqrt 3) rotate drop) ->
+  In b (@hex_shifts RS rings radius gap (sqrt 3) rotate drop) -> a <> b ->
+  ~ (@hex_val RS Rleb n m radius (sqrt 3) (fst (snd a)) (snd (snd a)) (hex_normals_R rotate) false i j = 1%R /\
+     @hex_val RS Rleb n m radius (sqrt 3) (fst (snd b)) (snd (snd b)) (hex_normals_R rotate) false i j = 1%R).
+Proof. exact hex_segments_disjoint_R. Qed.
+Print Assumptions C20_hex_segments_do_not_overlap_for_positive_gap.
+
+(* seg_gap = 0 (known finding C20-hex-gap0-shared-edge): segments 3 and 4 of a one-ring aperture of radius 2
+   both contain the sample 3 columns right of the origin sample -- their common edge row *)
+Theorem C20_hex_segments_gap0_shared_edge_refuted :
+  forall n m : Z, exists a b,
+    In a (@hex_shifts RS 1 2%R 0%R (sqrt 3) false [0]) /\ In b (@hex_shifts RS 1 2%R 0%R (sqrt 3) false [0]) /\
+    fst a <> fst b /\
+    @hex_val RS Rleb n m 2%R (sqrt 3) (fst (snd a)) (snd (snd a)) (hex_normals_R false) false (n / 2) (m / 2 + 3) = 1%R /\
+    @hex_val RS Rleb n m 2%R (sqrt 3) (fst (snd b)) (snd (snd b)) (hex_normals_R false) false (n / 2) (m / 2 + 3) = 1%R.
+Proof. exact hex_gap0_shared_edge_R. Qed.
+Print Assumptions C20_hex_segments_gap0_shared_edge_refuted.
+
 (* ---------------------------------------------------------------- non-vacuity *)
 Definition exA : arr ZS := @mkArr ZS 3 4 (fun i j => 1 + i * 4 + j).
 Example C20_nonvacuous :
@@ -144,5 +334,10 @@ Example C20_nonvacuous :
   subarray exA 2 2 2 0 = Err ValueError /\
   @boundary ZS (fun v => 6 <? v) exA = Ok (1, 2, 0, 3) /\
   (match rebin2 (@mkArr ZS 2 4 (get exA)) 2 with Ok b => asum b = 36 /\ get b 0 1 = 3 + 4 + 7 + 8 | Err _ => False end) /\
-  centroid (@mkArr QS 3 3 (fun i j => if (i =? 2) && (j =? 1) then Q2Qc (5 # 2) else 0%Qc)) = (zq 2, zq 1).
+  centroid (@mkArr QS 3 3 (fun i j => if (i =? 2) && (j =? 1) then Q2Qc (5 # 2) else 0%Qc)) = (zq 2, zq 1) /\
+  (* an antialiased circle of radius 3/2 on the rationals: 1 at the origin sample, a proper fraction on the rim *)
+  get (@circle QS qle qsqrt 7 7 (Q2Qc (3 # 2)) 0%Qc 0%Qc true) 3 3 = 1%Qc /\
+  get (@circle QS qle qsqrt 7 7 (Q2Qc (3 # 2)) 0%Qc 0%Qc true) 3 5 = 0%Qc /\
+  qlt 0%Qc (get (@circle QS qle qsqrt 7 7 (Q2Qc (7 # 4)) 0%Qc 0%Qc true) 3 5) = true /\
+  length (hex_ring 2) = 12%nat /\ length (hex_kept 2 [0; 5]) = 17%nat.
 Proof. vm_compute. repeat split; reflexivity. Qed.
